@@ -207,6 +207,25 @@ fn check_heap(tier: &str, seed: u64, backend: Option<&str>) -> Vec<Summary> {
                 let maxv = if k % 3 == 0 { 5 } else { $cap };
                 cases.push((heap::random_ops(&mut rng, len, maxv), rng.next()));
             }
+            // directed scenarios: an object of k fields created in a small environment and consumed behind n_left
+            // other variables (block pointer in a register or in a spill slot), shared or not
+            let mut directed = 0u64;
+            for k in 0..=8usize {
+                for n_left in 0..$cap {
+                    if n_left + 1 + k + 2 > $cap {
+                        continue;
+                    }
+                    for share in [false, true] {
+                        if share && n_left + 2 + 2 * k + 1 > $cap {
+                            continue;
+                        }
+                        for ptr_every in [0usize, 2, 3] {
+                            cases.push((heap::directed_ops(n_left, k, share, ptr_every), rng.next()));
+                            directed += 1;
+                        }
+                    }
+                }
+            }
             let samples: Vec<String> = cases.iter().take(1).map(|(o, _)| format!("{:?}", &o[..o.len().min(12)])).collect();
             let audits = Arc::new(AtomicU64::new(0));
             let a2 = audits.clone();
@@ -217,7 +236,7 @@ fn check_heap(tier: &str, seed: u64, backend: Option<&str>) -> Vec<Summary> {
             });
             let mut s = Summary::default();
             s.check = format!("heap/{}", $name);
-            s.bound = format!("{nseq} random sequences of {len} operations (literal / allocate 0..8 fields / load / substitute) with at most {} live variables; heap audited after every operation", $cap);
+            s.bound = format!("{nseq} random sequences of {len} operations (literal / allocate 0..8 fields / load / substitute) with at most {} live variables + {directed} directed scenarios (object of 0..8 fields created in a small environment, consumed behind 0..{} other variables, shared and unshared, with and without pointer fields); heap audited after every operation", $cap, $cap);
             s.cases = total;
             s.nontrivial = audits.load(Ordering::Relaxed);
             s.exhaustive = false;
@@ -229,7 +248,7 @@ fn check_heap(tier: &str, seed: u64, backend: Option<&str>) -> Vec<Summary> {
     }
     one!(X86B, x86::X86, 24, "x86_64");
     one!(A64B, a64::A64, 30, "aarch64");
-    one!(RvB, rv::Rv, 9, "rv64");
+    one!(RvB, rv::Rv, 13, "rv64");
     out
 }
 
